@@ -393,7 +393,7 @@ func (m *Machine) havocLoop(c *Config, lp *Loop, phis []*ssa.Phi, entryVals []Va
 	fr := c.top
 	st := c.st
 	for i, p := range phis {
-		fr.regs[p] = m.havocValue(st, p.Comment, p.Type(), entryVals[i], m.phiBackValues(c, p, lp))
+		fr.regs[p] = m.havocValue(st, p.Comment, p.Type(), entryVals[i], m.phiBackValues(c, p, lp), p)
 	}
 	ms := m.loopModset(fr.fn, lp)
 	for root, paths := range ms.roots {
@@ -470,7 +470,7 @@ func (m *Machine) phiBackValues(c *Config, p *ssa.Phi, lp *Loop) []ssa.Value {
 	return vs
 }
 
-func (m *Machine) havocValue(st *State, name string, typ types.Type, entry Value, back []ssa.Value) Value {
+func (m *Machine) havocValue(st *State, name string, typ types.Type, entry Value, back []ssa.Value, head *ssa.Phi) Value {
 	if name == "" {
 		name = "phi"
 	}
@@ -478,10 +478,44 @@ func (m *Machine) havocValue(st *State, name string, typ types.Type, entry Value
 	case Term:
 		return m.syms.fresh(name, e.Sort)
 	case *SliceV:
-		// the backing object is kept (re-slicing keeps it); length is havocked
-		ln := m.syms.fresh(name+".len", SBV64)
-		st.assume(BVUle(ln, e.Cap))
-		return &SliceV{Obj: e.Obj, Off: e.Off, Len: ln, Cap: e.Cap, Nil: m.syms.fresh(name+".nil", SBool)}
+		// a slice that the loop only re-slices (s = s[:n]) keeps its backing object and capacity; one that is
+		// assigned from anything else in the body (append, make, another slice) is a different slice after an
+		// iteration: new backing object, new length and capacity
+		reslicedOnly := true
+		seen := map[ssa.Value]bool{}
+		var leaf func(v ssa.Value)
+		leaf = func(v ssa.Value) {
+			if seen[v] {
+				return
+			}
+			seen[v] = true
+			switch x := v.(type) {
+			case *ssa.Slice:
+				leaf(x.X)
+			case *ssa.Phi:
+				if x == head {
+					return
+				}
+				for _, e := range x.Edges {
+					leaf(e)
+				}
+			default:
+				reslicedOnly = false
+			}
+		}
+		for _, b := range back {
+			leaf(b)
+		}
+		if reslicedOnly && len(back) > 0 {
+			ln := m.syms.fresh(name+".len", SBV64)
+			st.assume(BVUle(ln, e.Cap))
+			return &SliceV{Obj: e.Obj, Off: e.Off, Len: ln, Cap: e.Cap, Nil: m.syms.fresh(name+".nil", SBool)}
+		}
+		ln, cp := m.syms.fresh(name+".len", SBV64), m.syms.fresh(name+".cap", SBV64)
+		st.assume(And(BVUle(ln, cp), BVUle(cp, BVLitI(1<<40, 64))))
+		nilF := m.syms.fresh(name+".nil", SBool)
+		st.assume(Implies(nilF, Eq(ln, BVLitI(0, 64))))
+		return &SliceV{Obj: m.newObj(name, e.Obj.Typ, true, e.Obj.Elem), Off: BVLitI(0, 64), Len: ln, Cap: cp, Nil: nilF}
 	case *PtrV:
 		return e
 	case *FuncV:
